@@ -66,6 +66,11 @@ package bttest
 //@   ensures result1 || len(r.Families) == old(len(r.Families))
 //@   ensures old(rowDesc(r)) ==> rowDesc(r)
 //@   ensures famSep(r.Families)
+// the row is compacted in place: the family array and every family's column array keep their identity
+//@   ensures obj(r.Families) == old(obj(r.Families))
+//@   ensures forall p *btpb.Family :: !fresh(p) ==> obj(p.Columns) == old(obj(p.Columns))
+//@   loop 1 invariant obj(r.Families) == old(obj(r.Families))
+//@   loop 1 invariant forall p *btpb.Family :: !fresh(p) ==> obj(p.Columns) == old(obj(p.Columns))
 // frame (for callers that hold other rows): families that are not in r keep their column list, column arrays that do
 // not belong to a family of r keep their elements
 //@   ensures forall p *btpb.Family :: !fresh(p) && (forall k :: 0 <= k < old(len(r.Families)) ==> old(r.Families[k]) != p) ==> p.Columns == old(p.Columns)
@@ -177,7 +182,7 @@ package bttest
 //@ spec plainKind(f *btpb.RowFilter) bool = f == nil || (!isRegexKind(f) && !typeis(f.Filter, *btpb.RowFilter_TimestampRangeFilter))
 
 //@ func filterCells
-//@   property C05
+//@   property C05 C12
 //@   requires cellsOK(cs)
 //@   ensures result1 != nil ==> len(result0) == 0
 //@   ensures result1 == nil ==> cellsOK(result0)
